@@ -12,6 +12,8 @@ CLAIMED = {
  "C16": ("model_checking", "Closure of (real Packetizer/Depacketizer/loop/PacketFIFO/Arbiter/Dispatcher x producers x byte-layout scoreboard written from the Header definition) under every valid/ready/sel schedule for a menu of header layouts, data widths and packet lengths.", TB, MC, "fsmc"),
  "C06": ("model_checking", "Closure of (real Wishbone InterconnectShared/Crossbar/Arbiter/Decoder/PointToPoint with real SoCRegion decoders x 1..3 Moore masters x 1..3 reactive slaves) under every request pattern (any slave or an unmapped window, read/write, back-to-back) and every slave latency/ack/err choice; per-cycle mutex/routing/ownership/response monitors, bounded-waiting counter, starvation/deadlock lassos on the graph.", TB, MC + " + fair-cycle detection", "fsmc"),
  "C07": ("model_checking", "Closure (write-back cache: bounded operation depth 3-5, reported) of (real Wishbone Down/Up/Converter, Cache (+real SRAM or environment memory), SRAM x one master x memory slave with free latency x flat byte-memory reference) under every master operation over colliding addresses, sel patterns incl. 0, read/write, gaps and back-to-back cycles; slave-side protocol stability and no-collateral-write checks.", TB, MC, "fsmc"),
+ "C08": ("model_checking", "Closure of (real AXI-Lite and AXI InterconnectShared/Crossbar/Arbiter/Decoder/PointToPoint with real SoCRegion decoders x 1..3 masters x 1..3 slaves) under every five-channel schedule (AW/W together or W late, free bready/rready, reactive slave readies, free B/R delay, write-only/read-only/mixed): AW/AR routing, W-to-AW pairing, B/R delivery to the issuing master, stability of every DUT-driven valid, starvation/deadlock lassos; capability runs for W-before-AW and greedy masters tied to known findings.", TB, MC + " + fair-cycle detection", "fsmc"),
+ "C09": ("model_checking", "Closure of (real AXILiteSRAM, AXILiteDown/Up/Converter, AXILite2Wishbone, Wishbone2AXILite, AXILite2CSR, Wishbone2CSR x AXI-Lite or Wishbone master driver x environment memory slave of the other protocol) with a flat byte-memory oracle (allowed sets for overlapping reads/writes), slave-side protocol stability, address-window and no-collateral-write checks, deadlock lassos; capability runs for partial strobes on CSR bridges and err responses.", TB, MC + " + fair-cycle detection", "fsmc"),
  "C11": ("model_checking", "Closure of (real InterconnectShared/Timeout/Crossbar with a time-out x masters x reactive slaves with fail-stop fault switches flipped at any cycle) for T in 1..6 with all latencies 0..T+1 (answers in the very expiry cycle included) and unmapped windows: deadline, all-ones data, error pulse = timed-out requests, undisturbed in-time answers, and graph liveness after a time-out; WaitTimer vs counter model. (AXI-Lite/AXI time-outs: added when checks/c11_axi.py is present.)", TB, MC + " with exhaustive fault-point enumeration", "fsmc"),
  "C12": ("model_checking", "Closure of (real CSRBank FHDL x register-file reference derived from the description) under every bus operation (all words, first word past the bank, same offset in another page; 3 data values; reads) x device-side inputs per cycle, for register menus covering sizes around the bus word, atomic writes, device-writable storages, read/write statuses, raw CSRs, fields with pulse/reset/offset, fixed locations, bus 8/32, big/little ordering, paging.", TB, MC, "fsmc"),
  "C15": ("model_checking", "Closure of (real EventManager + real CSRBank [+ SharedIRQ] x reference model of pending/status/enable/irq) under every trigger vector x every CSR bus operation per cycle, so trigger and clear coincide in every alignment; all 1..2-source mixes (quick) and 3-source mixes (thorough), bus 8/32.", TB, MC, "fsmc"),
